@@ -6,6 +6,7 @@ import (
 	"github.com/markusressel/fan2go/internal/configuration"
 	"github.com/markusressel/fan2go/internal/fans"
 	"github.com/markusressel/fan2go/internal/zzv"
+	"github.com/md14454/gosensors"
 )
 
 //zzv:bound H1 = real UpdateFanConfigFromHwMonControllers on 3 chips in any of the 6 enumeration orders, each chip with 0..3 fans on arbitrary ascending channels (1..64) numbered by position, a platform pattern matching exactly one chip, selector = index (1..4) or rpmChannel (1..64), pwmChannel explicit (1..64) or defaulted: on success the entry is bound to the selected device of the named chip (sysfs path, rpm channel, pwm channel = explicit or the device's own)
@@ -99,4 +100,69 @@ func ZZ_C17_H_FanBinding() {
 	zzv.Assert(cfg.HwMon.RpmInputPath == fmt.Sprintf("%s/fan%d_input", base, wantRpm), "H2.rpm_input_path")
 	zzv.Assert(cfg.HwMon.PwmPath == fmt.Sprintf("%s/pwm%d", base, wantPwm), "H2.pwm_path")
 	zzv.Assert(cfg.HwMon.PwmEnablePath == fmt.Sprintf("%s/pwm%d_enable", base, wantPwm), "H2.pwm_enable_path")
+}
+
+//zzv:bound D = discovery + binding composed: real GetFans on a chip whose fan features are any subset of fan1..fan6 (plus a temperature feature and a fan feature without an input), then the real UpdateFanConfigFromHwMonControllers with a symbolic selector (index 1..6 or rpmChannel 1..6) and a defaulted or explicit pwm channel: the device's channel is parsed from the feature name, the index is its position among the chip's fans, a defaulted pwm channel is the rpm channel, and the derived paths carry those numbers
+//zzv:stub gosensors.Chip is the pure-Go stand-in with an explicit feature list (the cgo library itself is outside)
+
+func ZZ_C17_D_DiscoveryThenBinding() {
+	mask := zzv.Choice("fanFeatures", 64)
+	chip := gosensors.Chip{Prefix: "nct6798", Path: "/sys/class/hwmon/hwmon2"}
+	var chans []int
+	chip.Features = append(chip.Features, gosensors.Feature{Name: "temp1", Type: gosensors.FeatureTypeTemp,
+		Subs: []gosensors.SubFeature{{Name: "temp1_input", Type: gosensors.SubFeatureTypeTempInput}}})
+	for ch := 1; ch <= 6; ch++ {
+		if mask&(1<<(ch-1)) == 0 {
+			continue
+		}
+		chans = append(chans, ch)
+		chip.Features = append(chip.Features, gosensors.Feature{Name: fmt.Sprintf("fan%d", ch), Type: gosensors.FeatureTypeFan,
+			Subs: []gosensors.SubFeature{{Name: fmt.Sprintf("fan%d_input", ch), Type: gosensors.SubFeatureTypeFanInput, Value: 1000}}})
+	}
+	chip.Features = append(chip.Features, gosensors.Feature{Name: "fan9", Type: gosensors.FeatureTypeFan,
+		Subs: []gosensors.SubFeature{{Name: "fan9_min", Type: gosensors.SubFeatureTypeFanMin}}})
+	found := GetFans(chip)
+	zzv.Assert(len(found) == len(chans), "D.one_fan_per_fan_input")
+	if len(found) != len(chans) {
+		return
+	}
+	ctrl := &HwMonController{Name: "nct6798", Platform: "nct6798", Path: chip.Path, Fans: found}
+	cfg := configuration.FanConfig{ID: "zzfan", HwMon: &configuration.HwMonFanConfig{Platform: "nct6798"}}
+	byIndex := zzv.Choice("selectBy", 2) == 0
+	sel := zzv.Int("selector")
+	zzv.Assume(sel >= 1)
+	zzv.Assume(sel <= 6)
+	if byIndex {
+		cfg.HwMon.Index = sel
+	} else {
+		cfg.HwMon.RpmChannel = sel
+	}
+	pwmCh := zzv.Int("pwmChannel")
+	zzv.Assume(pwmCh >= 0)
+	zzv.Assume(pwmCh <= 6)
+	cfg.HwMon.PwmChannel = pwmCh
+	err := UpdateFanConfigFromHwMonControllers([]*HwMonController{ctrl}, &cfg)
+	exists := false
+	wantRpm := 0
+	for i, ch := range chans {
+		hit := false
+		if byIndex {
+			hit = sel == i+1
+		} else {
+			hit = sel == ch
+		}
+		wantRpm = zzv.IteInt(hit, ch, wantRpm)
+		exists = zzv.Or(exists, hit)
+	}
+	zzv.Assert((err == nil) == exists, "D.error_iff_no_such_device")
+	if err != nil {
+		return
+	}
+	wantPwm := zzv.IteInt(pwmCh == 0, wantRpm, pwmCh)
+	zzv.Record("rpmChannel", cfg.HwMon.RpmChannel)
+	zzv.Record("pwmChannel", cfg.HwMon.PwmChannel)
+	zzv.Assert(cfg.HwMon.RpmChannel == wantRpm, "D.rpm_channel_from_feature_name")
+	zzv.Assert(cfg.HwMon.PwmChannel == wantPwm, "D.pwm_channel_defaults_to_rpm_channel")
+	zzv.Assert(cfg.HwMon.PwmPath == fmt.Sprintf("%s/pwm%d", chip.Path, wantPwm), "D.pwm_path")
+	zzv.Assert(cfg.HwMon.RpmInputPath == fmt.Sprintf("%s/fan%d_input", chip.Path, wantRpm), "D.rpm_input_path")
 }
